@@ -1081,6 +1081,8 @@ where
                     result.union_operand(first.clone());
                     ClassSetOperator::Intersection
                 } else {
+                    // A single '&' is an ordinary class character; the first operand stays in the union.
+                    result.union_operand(first.clone());
                     result.codepoints.add_one(0x26 /* & */);
                     ClassSetOperator::Union
                 }
